@@ -112,7 +112,7 @@ Section EI.
   Qed.
 
   Theorem edgeindex_refines_gen : forall cap ops rs mf,
-      (1 <= cap < W64)%N -> eiops_ok ops ->
+      (cap < W64)%N -> eiops_ok ops ->
       ei_run need (new_edge_index cap) ops = Some (rs, mf) ->
       rs = fst (ei_run_assoc [] ops) /\
       Permutation (key_values ekey einfo_v mf) (snd (ei_run_assoc [] ops)) /\
@@ -128,7 +128,7 @@ Section EI.
   Qed.
 
   Theorem edgeindex_total_gen : forall cap ops,
-      (1 <= cap < W64)%N -> eiops_ok ops -> no_overflow need ->
+      (cap < W64)%N -> eiops_ok ops -> no_overflow need ->
       ei_run need (new_edge_index cap) ops <> None.
   Proof.
     intros. eapply ei_run_total; eauto. apply inv_new. auto.
